@@ -706,18 +706,15 @@ func c04Known(u *c04Unit, c c04Call, got, jsErr string) string {
 	if strings.Contains(got, "quot;") && strings.ReplaceAll(got, "quot;", "#34;") == c.goOut && c04HasQuote(u, c) {
 		return "quote-entity"
 	}
-	if c04ParamBufferTrigger(u) {
-		return "js-param-buffer-binds-name"
-	}
+	// (js-param-buffer-binds-name was repaired as /repo 516f5ee: a fixed finding attributes nothing, and its trigger must
+	// not pre-empt the findings below)
 	if u.shapes["print-collection"] || c04PrintsCollection(u, c) {
 		return "print-collection"
 	}
 	if u.shapes["print-andor"] {
 		return "andor-operand-value"
 	}
-	if c04RoundNegativeTrigger(u, c) {
-		return "round-negative-tie"
-	}
+	// (round-negative-tie was repaired as /repo b45f25a: likewise)
 	// I11: attributed only when the trigger really holds on a printed value: one side uses exponent notation
 	if u.shapes["float"] && (c04Exponent.MatchString(c.goOut) || c04Exponent.MatchString(got)) {
 		return "float-format"
@@ -733,6 +730,37 @@ func c04PrintsCollection(u *c04Unit, c c04Call) bool {
 		case []interface{}, map[string]interface{}:
 			coll[k] = true
 		}
+	}
+	// ... or a variable that some {let} or {param} of the bundle binds to a list or map literal (by name: conservative)
+	var bind func(n ast.Node)
+	isColl := func(e ast.Node) bool {
+		switch e.(type) {
+		case *ast.ListLiteralNode, *ast.MapLiteralNode:
+			return true
+		}
+		return false
+	}
+	bind = func(n ast.Node) {
+		switch x := n.(type) {
+		case *ast.LetValueNode:
+			if isColl(x.Expr) {
+				coll[x.Name] = true
+			}
+		case *ast.CallParamValueNode:
+			if isColl(x.Value) {
+				coll[x.Key] = true
+			}
+		}
+		if p, ok := n.(ast.ParentNode); ok {
+			for _, ch := range p.Children() {
+				if ch != nil && !isNilNode(ch) {
+					bind(ch)
+				}
+			}
+		}
+	}
+	for _, t := range u.reg.Templates {
+		bind(t.Node)
 	}
 	found := false
 	var walk func(n ast.Node)
